@@ -146,6 +146,27 @@ static inline void fsl_assign_col0_d(double *dst, size_t dst_w, const double *sr
     FSL_CHECK(W_##d == W_##s, "container model: whole-array assignment between equal shapes (xtensor would resize the destination)"); \
     _Generic((d), size_t *: fsl_assign_all_z, double *: fsl_assign_all_d, _Bool *: fsl_assign_all_b)((d), (s), LEN_##s); \
     SETLEN_##d(LEN_##s); } else { FSL_NOT_FOCUS(d); } } while (0)
+/* unordered_set models on characteristic functions (one _Bool per node): range insert = union, clear = all false */
+static inline void fsl_set_union_b(_Bool *dst, const _Bool *src, size_t n)
+{
+    for (size_t k = 0; k < n; ++k)
+        __CPROVER_assigns(k, __CPROVER_object_whole(dst))
+        __CPROVER_loop_invariant(k <= n)
+        __CPROVER_loop_invariant(AG < n ==> dst[AG] == (AG < k ? (__CPROVER_loop_entry(dst[AG]) || src[AG]) : __CPROVER_loop_entry(dst[AG])))
+        __CPROVER_decreases(n - k)
+    { dst[k] = dst[k] || src[k]; }
+}
+static inline void fsl_set_clear_b(_Bool *dst, size_t n)
+{
+    for (size_t k = 0; k < n; ++k)
+        __CPROVER_assigns(k, __CPROVER_object_whole(dst))
+        __CPROVER_loop_invariant(k <= n)
+        __CPROVER_loop_invariant((AG < n && AG < k) ==> !dst[AG])
+        __CPROVER_decreases(n - k)
+    { dst[k] = 0; }
+}
+#define FSL_SET_UNION(d, s) do { if (FOC_##d) { fsl_set_union_b((d), (s), LEN_##s); } else { FSL_NOT_FOCUS(d); } } while (0)
+#define FSL_SET_CLEAR(d) do { if (FOC_##d) { fsl_set_clear_b((d), LEN_##d); } else { FSL_NOT_FOCUS(d); } } while (0)
 #define FSL_ASSIGN_COL0(d, s) do { if (FOC_##d) { \
     _Generic((d), size_t *: fsl_assign_col0_z, double *: fsl_assign_col0_d)((d), W_##d, (s), W_##s, gsize); \
     } else { FSL_NOT_FOCUS(d); } } while (0)
@@ -165,6 +186,9 @@ GRAPH_RULES = [
     # xtensor column-view assignment: `auto c = xt::col(A, 0); c = xt::col(B, 0);`  and the direct form
     V(r"auto\s+(\w+)\s*=\s*xt::col\(\s*(\w+)\s*,\s*0\s*\);\s*\1\s*=\s*xt::col\(\s*(\w+)\s*,\s*0\s*\);", r"FSL_ASSIGN_COL0(\2, \3);"),
     V(r"xt::col\(\s*(\w+)\s*,\s*0\s*\)\s*=\s*xt::col\(\s*(\w+)\s*,\s*0\s*\);", r"FSL_ASSIGN_COL0(\1, \2);"),
+    # std::unordered_set range insert `dst.insert(src.begin(), src.end())`: set union on the characteristic functions (the destination keeps its elements)
+    V(r"\b((?:snap|src)_base_levels)\.insert\(\s*((?:snap|src)_base_levels)\.begin\(\)\s*,\s*\2\.end\(\)\s*\);", r"FSL_SET_UNION(\1, \2);"),
+    V(r"\b((?:snap|src)_base_levels)\.clear\(\);", r"FSL_SET_CLEAR(\1);"),
     # xtensor whole-array assignment
     V(r"\b((?:snap|src)_(?:%s))\s*=\s*((?:snap|src)_(?:%s));" % (NAMES, NAMES), r"FSL_ASSIGN_ALL(\1, \2);"),
     # a reference alias to a table (`auto& t = graph_impl_snapshot.m_receivers;`): tables are pointers in the model
